@@ -140,7 +140,9 @@ def run_tree(res, spec, filters):
         fp_before.append(impl.snap_instance_light(inst))
         return None
 
+    # single-filter configurations reuse ONE dispatcher for the whole tree
+    # (reset + replay of each branch), the others build fresh objects
     _disp.explore(
         res, spec, filters, visit, check, pre_dispatch=pre_dispatch,
-        make_extra=make_extra, sig=sig,
+        make_extra=make_extra, sig=sig, rebuild="reset" if len(filters) == 1 else "fresh",
     )
